@@ -355,14 +355,31 @@ Definition trampoline_bytes (target : Z) : bytes := trampoline_head ++ le_bytes 
 
 (* code pages of mcount_save_code / mcount_freeze_code: (first page number, frozen) *)
 Definition CODE_CHUNK_PAGES : Z := 8.
-Record code_page := { cp_page : Z; cp_frozen : bool }.
+Record code_page := { cp_page : Z; cp_frozen : bool; cp_pos : Z }.
 Definition chunk_range (pm : pmap) (pg0 : Z) (p : perm) : pmap :=
   fun pg => if (pg0 <=? pg) && (pg <? pg0 + CODE_CHUNK_PAGES) then p else pm pg.
 Definition alloc_codepage (pm : pmap) (cps : list code_page) (pg0 : Z) : pmap * list code_page :=
-  (chunk_range pm pg0 P_RWX, cps ++ [{| cp_page := pg0; cp_frozen := false |}]).
+  (chunk_range pm pg0 P_RWX, cps ++ [{| cp_page := pg0; cp_frozen := false; cp_pos := 0 |}]).
 Definition freeze_code (pm : pmap) (cps : list code_page) : pmap * list code_page :=
   (fold_left (fun pm cp => if cp_frozen cp then pm else chunk_range pm (cp_page cp) P_RX) cps pm,
-   map (fun cp => {| cp_page := cp_page cp; cp_frozen := true |}) cps).
+   map (fun cp => {| cp_page := cp_page cp; cp_frozen := true; cp_pos := cp_pos cp |}) cps).
+
+(* mcount_save_code seen from the page table: a new chunk when there is none, when the last one
+   is full or when it is frozen; [fresh] is where mmap puts a new chunk.  psz = patch_size. *)
+Definition CODE_CHUNK : Z := CODE_CHUNK_PAGES * PAGE_SIZE.
+Definition bump_last (cps : list code_page) (psz : Z) : list code_page :=
+  match rev cps with
+  | [] => []
+  | cp :: r => rev r ++ [{| cp_page := cp_page cp; cp_frozen := cp_frozen cp; cp_pos := cp_pos cp + psz |}]
+  end.
+Definition save_code (pm : pmap) (cps : list code_page) (fresh : Z) (psz : Z) : pmap * list code_page :=
+  let need := match rev cps with
+              | [] => true
+              | cp :: _ => (CODE_CHUNK <? cp_pos cp + psz) || cp_frozen cp
+              end in
+  let '(pm1, cps1) := if need then alloc_codepage pm cps fresh else (pm, cps) in
+  (pm1, bump_last cps1 psz).
+Definition align32 (n : Z) : Z := ((n + 31) / 32) * 32.
 
 (* do_dynamic_update + freeze_dynamic_update seen from the page table: every module that gets
    patched is set up (text rwx), patched, and at the end every module is cleaned up (text r-x)
@@ -421,19 +438,20 @@ Definition call_target (insn : N) (code : bytes) : option Z :=
   | _ => None
   end.
 
-(* symbols the loops get to: every symbol of the table, or (patchable section) the symbol each
-   listed address falls into / a fake one *)
+(* symbols the loops get to (after skip_sym): every function symbol of the table, or (patchable
+   section) the symbol each listed address falls into / a fake one for a symbol-less address *)
 Definition visited (c : cfg) (syms : list sym) (targets : list N) : list sym :=
   match c_ty c with
-  | DPatchable => map (fun a => match find_sym syms a with Some s => s | None => fake_sym a end) targets
-  | _ => syms
+  | DPatchable => flat_map (fun a => match find_sym syms a with
+                                     | Some s => if skip_sym s then [] else [s]
+                                     | None => [fake_sym a]
+                                     end) targets
+  | _ => filter (fun s => negb (skip_sym s)) syms
   end.
 
 (* what the property allows to happen to one visited symbol, judged on the memory BEFORE the update:
    Some (address, new bytes) or None = byte-for-byte untouched *)
 Definition spec_change (O : oracle) (c : cfg) (m : mem) (s : sym) : option (N * bytes) :=
-  if skip_sym s then None
-  else
     let d := spec_decision O c s in
     if (d =? 1)%Z then
       let e := entry_of m (s_addr s) in
@@ -448,15 +466,22 @@ Definition spec_change (O : oracle) (c : cfg) (m : mem) (s : sym) : option (N * 
       end
     else None.
 
-Fixpoint expect (O : oracle) (c : cfg) (m : mem) (vis : list sym) (a : N) : N :=
+Fixpoint changes (O : oracle) (c : cfg) (m : mem) (vis : list sym) : list (N * bytes) :=
   match vis with
-  | [] => m a
+  | [] => []
   | s :: r => match spec_change O c m s with
-              | Some (e, code) => if in_span e (N.of_nat (length code)) a then nth (N.to_nat (a - e)) code 0
-                                  else expect O c m r a
-              | None => expect O c m r a
+              | Some ch => ch :: changes O c m r
+              | None => changes O c m r
               end
   end.
+Fixpoint apply_changes (m : mem) (chs : list (N * bytes)) (a : N) : N :=
+  match chs with
+  | [] => m a
+  | (e, code) :: r => if in_span e (N.of_nat (length code)) a then nth (N.to_nat (a - e)) code 0
+                      else apply_changes m r a
+  end.
+Definition expect (O : oracle) (c : cfg) (m : mem) (vis : list sym) : mem :=
+  apply_changes m (changes O c m vis).
 
 (* executable property checker for an observed update: before/after byte windows at [base, base+len) *)
 Definition mem_of (base : N) (l : bytes) : mem :=
@@ -464,14 +489,153 @@ Definition mem_of (base : N) (l : bytes) : mem :=
 Definition window (m : mem) (base : N) (len : nat) : bytes := rd m base len.
 Definition ok_update (O : oracle) (c : cfg) (syms : list sym) (targets : list N) (base : N)
            (before after : bytes) : bool :=
+  let chs := changes O c (mem_of base before) (visited c syms targets) in
   Nat.eqb (length before) (length after)
-  && bytes_eqb after (window (expect O c (mem_of base before) (visited c syms targets)) base (length before)).
+  && bytes_eqb after (window (apply_changes (mem_of base before) chs) base (length before)).
 
 (* page side of the property: after the update no page is writable that was not writable before,
    text pages and pages added by uftrace are r-x *)
 Definition ok_pages (ds : list mdi) (cps : list code_page) (before after : pmap) (pages : list Z) : bool :=
   forallb (fun pg => if touched ds cps pg then perm_eqb (after pg) P_RX
                      else perm_eqb (after pg) (before pg)) pages.
+
+(* ------------------------------------------------------------------ correspondence cases *)
+Fixpoint assoc1 (tbl : list (bytes * bool)) (p : bytes) : bool :=
+  match tbl with
+  | [] => false
+  | (p', b) :: r => if bytes_eqb p p' then b else assoc1 r p
+  end.
+Fixpoint assoc2 (tbl : list (bytes * bytes * bool)) (p n : bytes) : bool :=
+  match tbl with
+  | [] => false
+  | (p', n', b) :: r => if bytes_eqb p p' && bytes_eqb n n' then b else assoc2 r p n
+  end.
+Definition mk_oracle (regok : list (bytes * bool)) (tbl : list (bytes * bytes * bool)) : oracle :=
+  {| o_regcomp := assoc1 regok; o_regexec := assoc2 tbl; o_fnmatch := assoc2 tbl |}.
+
+Definition ptype_eqb (a b : ptype) : bool :=
+  match a, b with PSimple, PSimple | PRegex, PRegex | PGlob, PGlob => true | _, _ => false end.
+Definition pitem_eqb (a b : pitem) : bool :=
+  ptype_eqb (pt_type (pi_patt a)) (pt_type (pi_patt b)) && bytes_eqb (pt_str (pi_patt a)) (pt_str (pi_patt b))
+  && bytes_eqb (pi_mod a) (pi_mod b) && Bool.eqb (pi_pos a) (pi_pos b).
+Fixpoint list_eqb {A B} (f : A -> B -> bool) (a : list A) (b : list B) : bool :=
+  match a, b with
+  | [], [] => true
+  | x :: a', y :: b' => f x y && list_eqb f a' b'
+  | _, _ => false
+  end.
+
+Record query := { q_lib : bytes; q_so : option bytes; q_name : bytes; q_ret : Z; q_bits : list bool }.
+Record pcase := {
+  p_ptype : ptype; p_funcs : bytes; p_defmod : bytes;
+  p_cli : option (list cliopt);            (* the -P/-U options the string was rendered from *)
+  p_regok : list (bytes * bool); p_tbl : list (bytes * bytes * bool);
+  p_items : list pitem;                    (* the implementation's parsed list *)
+  p_queries : list query
+}.
+Definition p_oracle (c : pcase) : oracle := mk_oracle (p_regok c) (p_tbl c).
+
+Definition p_agrees (c : pcase) : bool :=
+  let O := p_oracle c in
+  let pl := parse_pattern_list O (p_funcs c) (p_defmod c) (p_ptype c) in
+  list_eqb pitem_eqb pl (p_items c)
+  && forallb (fun q => (match_pattern_list O pl (q_lib q) (q_so q) (q_name q) =? q_ret q)%Z
+                       && list_eqb Bool.eqb (map (fun p => matches O (pi_patt p) (q_name q)) pl) (q_bits q))
+             (p_queries c).
+
+(* the property on the implementation's own outputs: its verdict is the polarity of the last of
+   ITS items whose module applies and whose pattern (ITS match result) matches; and for a list that
+   came from -P/-U options the items are those options in order *)
+Fixpoint last_hit_bits (items : list pitem) (bits : list bool) (lib : bytes) (so : option bytes)
+         (acc : option pitem) : option pitem :=
+  match items, bits with
+  | p :: r, b :: rb => last_hit_bits r rb lib so (if mod_applies lib so (pi_mod p) && b then Some p else acc)
+  | _, _ => acc
+  end.
+Definition cli_item_ok (defmod : bytes) (o : cliopt) (p : pitem) : bool :=
+  let '(arg, pos) := match o with OptP a => (a, true) | OptU a => (a, false) end in
+  let '(pat, modopt) := split_at arg in
+  Bool.eqb (pi_pos p) pos && bytes_eqb (pt_str (pi_patt p)) pat
+  && bytes_eqb (pi_mod p) (match modopt with Some m => m | None => defmod end).
+Definition p_ok (c : pcase) : bool :=
+  forallb (fun q => (q_ret q =? polarity (last_hit_bits (p_items c) (q_bits q) (q_lib q) (q_so q) None))%Z
+                    && Nat.eqb (length (q_bits q)) (length (p_items c)))
+          (p_queries c)
+  && match p_cli c with
+     | Some opts => list_eqb (fun o p => cli_item_ok (p_defmod c) o p) opts (p_items c)
+     | None => true
+     end.
+
+Definition dyntype_of (n : N) : dyntype :=
+  match n with 1 => DPg | 2 => DFentry | 3 => DFentryNop | 4 => DXray | 5 => DPatchable | _ => DNone end.
+Definition pm_of (l : list perm) : pmap :=
+  fun pg => if (0 <=? pg)%Z then nth (Z.to_nat pg) l Unmapped else Unmapped.
+Definition perms_of (pm : pmap) (n : nat) : list perm := map (fun i => pm (Z.of_nat i)) (seq 0 n).
+
+Record ucase := {
+  u_ptype : ptype; u_funcs : bytes; u_defmod : bytes;
+  u_regok : list (bytes * bool); u_tbl : list (bytes * bytes * bool);
+  u_ty : N; u_min : N; u_lib : bytes;
+  u_text_addr : Z; u_text_size : Z; u_perms : list perm;
+  u_wbase : N; u_before : bytes; u_syms : list sym; u_targets : list N;
+  u_ncode : nat; u_codesz : Z;
+  (* what the implementation did *)
+  i_fatal : bool; i_rc : Z; i_tramp : Z; i_tsize : Z; i_perm1 : list perm; i_perm2 : list perm;
+  i_after : bytes; i_stats : stats; i_thead : bytes; i_tdelta : Z; i_canary : N;
+  i_ncp : nat; i_cp_before : list perm; i_cp_after : list perm
+}.
+Definition u_oracle (u : ucase) : oracle := mk_oracle (u_regok u) (u_tbl u).
+Definition u_cfg (u : ucase) (tramp : Z) : cfg :=
+  {| c_pats := parse_pattern_list (u_oracle u) (u_funcs u) (u_defmod u) (u_ptype u);
+     c_lib := u_lib u; c_so := None; c_ty := dyntype_of (u_ty u); c_tramp := tramp; c_min := u_min u |}.
+Definition u_mdi (u : ucase) : mdi :=
+  {| d_text_addr := u_text_addr u; d_text_size := u_text_size u; d_tramp := 0; d_ty := dyntype_of (u_ty u) |}.
+Definition cp_first (cps : list code_page) : list Z := map cp_page cps.
+(* chunk i of the implementation is given the page number 1000 + 8 i *)
+Fixpoint save_codes (pm : pmap) (cps : list code_page) (n : nat) (psz : Z) : pmap * list code_page :=
+  match n with
+  | O => (pm, cps)
+  | S n' => let '(pm1, cps1) := save_code pm cps (1000 + 8 * Z.of_nat (length cps))%Z psz in
+            save_codes pm1 cps1 n' psz
+  end.
+Definition perm_list_eqb := list_eqb perm_eqb.
+
+Definition u_agrees (u : ucase) : bool :=
+  let np := length (u_perms u) in
+  match setup_trampoline (pm_of (u_perms u)) (u_mdi u) with
+  | None => i_fatal u
+  | Some (pm1, d1) =>
+      negb (i_fatal u) && (i_rc u =? 0)%Z && (d_tramp d1 =? i_tramp u)%Z && (d_text_size d1 =? i_tsize u)%Z
+      && perm_list_eqb (perms_of pm1 np) (i_perm1 u)
+      && (let '(m, k) := patch_func_matched (u_oracle u) (u_cfg u (d_tramp d1)) (u_syms u) (u_targets u)
+                                            (mem_of (u_wbase u) (u_before u), stats0) in
+          bytes_eqb (window m (u_wbase u) (length (u_before u))) (i_after u) && stats_eqb k (i_stats u))
+      && (let '(pm2, cps2) := save_codes pm1 [] (u_ncode u) (align32 (Z.min (u_codesz u) 64 + 15)) in
+          let pm3 := cleanup_trampoline pm2 d1 in
+          let '(pm4, cps4) := freeze_code pm3 cps2 in
+          perm_list_eqb (perms_of pm4 np) (i_perm2 u)
+          && Nat.eqb (length cps2) (i_ncp u)
+          && perm_list_eqb (map (fun cp => pm2 (cp_page cp)) cps2) (i_cp_before u)
+          && perm_list_eqb (map (fun cp => pm4 (cp_page cp)) cps4) (i_cp_after u))
+  end.
+
+(* the property on the implementation's outputs *)
+Definition u_ok (u : ucase) : bool :=
+  let np := length (u_perms u) in
+  let d := {| d_text_addr := u_text_addr u; d_text_size := i_tsize u; d_tramp := i_tramp u;
+              d_ty := dyntype_of (u_ty u) |} in
+  negb (i_fatal u)                                                   (* the process keeps running *)
+  && (i_canary u =? 0)                                               (* nothing else was written *)
+  && match dyntype_of (u_ty u) with                                   (* trampoline jumps to __fentry__ *)
+     | DFentryNop | DPatchable => bytes_eqb (i_thead u) trampoline_head && (i_tdelta u =? 0)%Z
+     | _ => true                       (* nothing is ever made to call it for the other types *)
+     end
+  && (u_text_addr u + u_text_size u <=? i_tramp u)%Z                 (* ... and lies behind the code *)
+  && in_range (u_text_addr u) (i_tsize u) (page_of (i_tramp u))
+  && in_range (u_text_addr u) (i_tsize u) (page_of (i_tramp u + 15))
+  && ok_update (u_oracle u) (u_cfg u (i_tramp u)) (u_syms u) (u_targets u) (u_wbase u) (u_before u) (i_after u)
+  && ok_pages [d] [] (pm_of (u_perms u)) (pm_of (i_perm2 u)) (map Z.of_nat (seq 0 np))
+  && forallb (perm_eqb P_RX) (i_cp_after u).
 
 Fixpoint bad_indices {A} (f : A -> bool) (l : list A) (i : nat) : list nat :=
   match l with
